@@ -5,6 +5,7 @@ package bleve
 import (
 	"context"
 	"sort"
+	"time"
 
 	rt "github.com/blevesearch/bleve/v2/internal/verifrt"
 	"github.com/blevesearch/bleve/v2/search"
@@ -18,6 +19,8 @@ type verifIndexIface = Index
 
 type verifShard struct {
 	verifIndexIface
+	gate chan struct{} // closed when it is this shard's turn to answer
+	next chan struct{} // the following shard's gate
 	name string
 	docs []int // indexes into the corpus
 	reqs []*SearchRequest
@@ -30,6 +33,17 @@ var verifCorpusFacet = []string{"x", "y", "x", "", "y"} // value of field g ("" 
 func (s *verifShard) Name() string { return s.name }
 
 func (s *verifShard) SearchInContext(ctx context.Context, req *SearchRequest) (*SearchResult, error) {
+	// answers arrive in the order the harness chose: wait for the turn, and give the previous shard's
+	// result time to be delivered (natively goroutines are scheduled arbitrarily)
+	if s.gate != nil {
+		<-s.gate
+		time.Sleep(3 * time.Millisecond)
+	}
+	defer func() {
+		if s.next != nil {
+			close(s.next)
+		}
+	}()
 	s.reqs = append(s.reqs, req)
 	desc := false
 	if len(req.Sort) > 0 {
@@ -109,9 +123,15 @@ func VerifH_C09_MultiSearch() {
 	// order in which the shards are given (their results arrive in that order in the executor)
 	order := [][]int{{0, 1, 2}, {0, 2, 1}, {1, 0, 2}, {1, 2, 0}, {2, 0, 1}, {2, 1, 0}}[rt.Choice("order", 6)]
 	var idxs []Index
+	var prev *verifShard
 	for _, o := range order {
 		if o < nsh {
 			idxs = append(idxs, shards[o])
+			if prev != nil {
+				shards[o].gate = make(chan struct{})
+				prev.next = shards[o].gate
+			}
+			prev = shards[o]
 		}
 	}
 	size := rt.Choice("size", 3) + 1
